@@ -4,6 +4,7 @@
   `handle_connack`, `apply_ping_extension_on_operation_success` (protocol.rs).  Times are milliseconds.
 -/
 import GV.Proofs.EngineBasics
+import GV.Proofs.EngineWrite
 namespace GV.Props.C14
 open GV
 
@@ -135,5 +136,27 @@ theorem ping_extension_bounded (e : Engine) (o : Op) (b : Nat) (s : Settings) (n
   · rw [hn] at h
     have : np' = np := by injection h with h; exact h.symm
     omega
+
+/-! ### every history -/
+
+/-- **The keep-alive clock never stops.**  After any sequence of events whatsoever: while the engine is Connected with a
+    negotiated keep alive of K > 0 seconds (the server's value, or the client's when the CONNACK carries none), a time for the
+    next PINGREQ is set - the CONNACK sets it, every PINGREQ written re-arms it, acknowledged traffic only moves it, and
+    nothing clears it while the connection lasts.  (`Props/C08.connected_time_covers_all_work`: the reported next service time
+    is never later than it; `due_ping_is_sent`: the service call at that time queues the PINGREQ.) -/
+theorem next_ping_always_scheduled (cfg : Config) (evs : List Event) (s : Settings)
+    (hst : (runEvents (Engine.new cfg) evs).1.state = .connected) (hs : (runEvents (Engine.new cfg) evs).1.settings = some s)
+    (hk : s.serverKeepAlive > 0) : (runEvents (Engine.new cfg) evs).1.nextPing.isSome = true :=
+  ka_after cfg evs hst s hs hk
+
+/-- ... and negotiated settings are there whenever the engine is Connected -/
+theorem connected_has_settings (cfg : Config) (evs : List Event) (hst : (runEvents (Engine.new cfg) evs).1.state = .connected) :
+    (runEvents (Engine.new cfg) evs).1.settings.isSome = true :=
+  settings_of_connected _ (inv_after cfg evs).2.1 hst
+
+/-- non-vacuity: connected with keep alive 10 s, the next ping is due 10 s after the CONNACK -/
+example :
+    let e := (runEvents (Engine.new { connect := { keepAlive := some 10 } }) [.opened 0 100, .service 0 64 0, .writeDone 0, .data 5 [32, 3, 0, 0, 0]]).1
+    (e.state == .connected && e.nextPing == some 10005) = true := by decide
 
 end GV.Props.C14
